@@ -131,8 +131,11 @@ def namespace(inputs, params):
 def evaluate(text, inputs, params):
     """-> ('ok', value) | ('raises', exc)"""
     ns = namespace(inputs, params)
+    # one dictionary used as globals: comprehension scopes nested in the expression must see the bindings too
+    g = {"__builtins__": builtins}
+    g.update(ns)
     try:
-        return ("ok", eval(compile(ast.parse(text, mode="eval"), "<cond>", "eval"), {"__builtins__": builtins}, ns))
+        return ("ok", eval(compile(ast.parse(text, mode="eval"), "<cond>", "eval"), g))
     except Exception as e:  # noqa
         return ("raises", e)
 
